@@ -637,6 +637,11 @@ class Exporter
                     J.attribute("casev", R.Val.getInt().getExtValue());
             }
         }
+        else if (const auto* SN = dyn_cast<SubstNonTypeTemplateParmExpr>(S))
+        {
+            if (const NonTypeTemplateParmDecl* PD = SN->getParameter())
+                J.attribute("tparm", PD->getNameAsString());
+        }
         else if (const auto* SO = dyn_cast<UnaryExprOrTypeTraitExpr>(S))
         {
             J.attribute("trait", (int64_t)SO->getKind());
